@@ -83,7 +83,8 @@ contract(f"{RT}:Router.gn_data_indicate_guc", returns=ind_of("HeaderSubType"), p
              "forward_common_unchanged": "implies(n_sent() == 1, sent0()[4:12] == common_header_int(common_header).to_bytes(8, 'big'))",
              "forward_so_pv_and_sn_identical": "implies(n_sent() == 1 and lpv_conformant(packet, 4), sent0()[12:40] == packet[0:28])",
              "forward_payload_identical": "implies(n_sent() == 1, sent0()[60:] == packet[48:])",
-             "forward_de_pv_same_station": "implies(n_sent() == 1, sent0()[42:48] == packet[30:36])"},
+             "forward_de_pv_same_station": "implies(n_sent() == 1, sent0()[42:48] == packet[30:36])",
+             "forward_de_pv_refreshed_only_by_a_newer_one": "implies(n_sent() == 1 and bits(be(packet, 28, 2), 0, 10) == 0 and sent0()[40:60] != packet[28:48], tst_newer(be(sent0(), 48, 4), be(packet, 36, 4)))"},
          cover=["result is not None", "n_sent() == 1"], **S)
 
 # ---------------------------------------------------------------- GBC / GAC
